@@ -82,6 +82,32 @@ func ruleMultiplicity(r *Run) {
 	}
 	r.AtLeast(rule, "send-chain call sites", n, 10)
 
+	// R12c: downstream requests are not marked replayable — net/http's transport silently
+	// re-sends a request that carries Idempotency-Key / X-Idempotency-Key when a reused
+	// connection dies, which would deliver a batch (mutations included) twice
+	for _, fn := range r.P.Funcs {
+		if topFn(fn).Pkg == nil || shortPkg(topFn(fn).Pkg.Pkg.Path()) != "queryer" {
+			continue
+		}
+		for _, ins := range allInstrs(fn) {
+			ci, ok := ins.(ssa.CallInstruction)
+			if !ok {
+				continue
+			}
+			cn := calleeName(ci.Common())
+			if cn != "(net/http.Header).Set" && cn != "(net/http.Header).Add" || len(ci.Common().Args) < 2 {
+				continue
+			}
+			k, isConst := ci.Common().Args[1].(*ssa.Const)
+			key := ""
+			if isConst && k.Value != nil {
+				key = strings.ToLower(strings.Trim(k.Value.ExactString(), `"`))
+			}
+			r.Check(key != "idempotency-key" && key != "x-idempotency-key", "R12c", fnName(fn), "request header "+key, r.P.pos(ins.Pos()),
+				"header does not change the transport's retry behaviour", "the downstream request is given an (X-)Idempotency-Key header: Go's http.Transport treats such a request as replayable and silently re-sends it when a reused connection fails before the response — the service can receive the same batch twice")
+		}
+	}
+
 	// one pass per depth: the loop around de.Execute has a strictly increasing induction variable
 	mgr := r.Anchor(rule, "executor.(*DepthExecutorManager).Execute")
 	if mgr != nil {
